@@ -273,3 +273,12 @@ Proof.
   rewrite (skip_hsp_run w _ _ _ Hw Hstop). cbn [fst snd]. rewrite p_string_unfold.
   rewrite (p_segment_fails (d :: r) _ _ f true Hs). reflexivity.
 Qed.
+
+(** After a name: horizontal space then "(" "," "=" ":" or a line end. *)
+Lemma name_followb_hsp_then (w : str) c (r : str) : forallb is_hsp w = true -> is_hsp c = false ->
+  seg_start c = false -> name_followb (w ++ c :: r) = true.
+Proof.
+  intros Hw Hch Hc. unfold name_followb. rewrite (span_app is_hsp w (c :: r) Hw Hch). cbn [snd stopsb].
+  rewrite Hc. reflexivity.
+Qed.
+
